@@ -87,6 +87,14 @@ fn any_flag(net: &Network) -> bool {
     verif::training_flags(net).iter().any(|f| *f)
 }
 
+/// Has training driven this network out of the finite range (a non-finite parameter, or a
+/// non-finite output on one of the probe inputs)? Panics raised on such a network (the
+/// documented "Loss is NaN", arg-max over NaN scores) say nothing about dropout.
+fn diverged(net: &Network, probes: &[&Tensor]) -> bool {
+    let params_bad = guard(|| get_params(net).iter().any(|(_, v)| v.iter().any(|x| !x.is_finite()))).unwrap_or(false);
+    params_bad || probes.iter().any(|x| matches!(guard(|| net.predict(x)), Ok(p) if flat(&p).iter().any(|v| !v.is_finite())))
+}
+
 impl Monitor for C09 {
     fn id(&self) -> &'static str {
         "C09"
@@ -205,6 +213,7 @@ impl Monitor for C09 {
         let ttags = train.tags();
         let vtags = val.tags();
         // train A for e epochs; returns net, result, events
+        let probes: Vec<&Tensor> = val.x_tensors.iter().take(6).chain(train.x_tensors.iter().take(6)).collect();
         let train_a = |e: usize| -> Result<(Network, (Vec<f32>, Vec<f32>, Vec<f32>), Vec<Event>), String> {
             let mut a = mk(&cfg, &params)?;
             let (r, ev) = in_cached_pool(3, || {
@@ -213,14 +222,18 @@ impl Monitor for C09 {
                     a.learn(&xr, &tr, validation, batch, e as i32, None)
                 })
             });
-            Ok((a, r?, ev))
+            match r {
+                Ok(r) => Ok((a, r, ev)),
+                Err(m) if m.contains("Loss is NaN") || diverged(&a, &probes) => Err(format!("DIVERGED {}", m)),
+                Err(m) => Err(m),
+            }
         };
         let (mut a, (tl, vl, va), events) = match train_a(epochs) {
             Ok(r) => r,
             Err(m) => {
-                if m.contains("Loss is NaN") {
+                if m.starts_with("DIVERGED") {
                     out.nontrivial = false;
-                    out.count("runs_aborted_by_the_documented_NaN_loss_panic", 1);
+                    out.count("runs_aborted_on_a_diverged_network_(NaN_loss_panic_or_non-finite_outputs)", 1);
                 } else {
                     out.viol("dropout:learn-panic", format!("learn panicked: {} [{}]", short(&m, 160), desc), detail());
                 }
@@ -337,7 +350,13 @@ impl Monitor for C09 {
                         out.viol("dropout:standalone-validate-in-training-mode", format!("stand-alone validate(): flags before {} / after {} / during a forward pass [{}]", before, after, desc), detail());
                     }
                 }
-                (Err(m), _) | (_, Err(m)) => out.viol("dropout:validate-panic", format!("validate panicked: {} [{}]", short(&m, 160), desc), detail()),
+                (Err(m), _) | (_, Err(m)) => {
+                    if diverged(a, &probes) {
+                        out.count("checks_skipped_on_a_diverged_network", 1);
+                        return;
+                    }
+                    out.viol("dropout:validate-panic", format!("validate panicked: {} [{}]", short(&m, 160), desc), detail())
+                }
             }
             // batched prediction
             {
@@ -391,7 +410,7 @@ impl Monitor for C09 {
                     check_epoch(&mut a, epochs + 1, rv, ra, &mut out);
                 }
                 Err(m) => {
-                    if !m.contains("Loss is NaN") {
+                    if !m.contains("Loss is NaN") && !diverged(&a, &probes) {
                         out.viol("dropout:learn-panic", format!("second learn() call panicked: {} [{}]", short(&m, 160), desc), detail());
                     }
                 }
@@ -407,6 +426,10 @@ impl Monitor for C09 {
                     }
                     let (rv, ra) = if with_val { (vle[e - 1], vae[e - 1]) } else { (0.0, 0.0) };
                     check_epoch(&mut ae, e, rv, ra, &mut out);
+                }
+                Err(m) if m.starts_with("DIVERGED") => {
+                    out.count("checks_skipped_on_a_diverged_network", 1);
+                    break;
                 }
                 Err(m) => {
                     out.viol("dropout:learn-panic", format!("learn({} epochs) panicked: {} [{}]", e, short(&m, 160), desc), detail());
